@@ -17,41 +17,41 @@ type PFile struct {
 // Dep is one declared dependency; it is written into the deps.<finder> file of
 // its module location and read back by the finder stub through the fs.FS.
 type Dep struct {
-	Kind   string `json:"kind"`           // local remote registry
-	Addr   string `json:"addr"`           // address text handed to sourceaddrs.Parse*
+	Kind   string `json:"kind"`             // local remote registry
+	Addr   string `json:"addr"`             // address text handed to sourceaddrs.Parse*
 	Constr string `json:"constr,omitempty"` // registry: ruby-style constraint, "" = all
-	Finder string `json:"finder"`         // finder for the dependency: F1 F2
+	Finder string `json:"finder"`           // finder for the dependency: F1 F2
 }
 
 // Diag is a diagnostic a finder stub emits at a module location.
 type Diag struct {
-	ID    string `json:"id"`
-	Sev   string `json:"sev"` // E W
-	File  string `json:"file,omitempty"` // package-relative file name of the subject range ("" = none)
+	ID      string `json:"id"`
+	Sev     string `json:"sev"`            // E W
+	File    string `json:"file,omitempty"` // package-relative file name of the subject range ("" = none)
 	CtxFile string `json:"ctx_file,omitempty"`
 }
 
 // Mod is a module location of a package analysed by one finder.
 type Mod struct {
-	SubPath string `json:"sub_path"`
-	Finder  string `json:"finder"`
-	Deps    []Dep  `json:"deps,omitempty"`
-	Diags   []Diag `json:"diags,omitempty"`
-	Perm    uint64 `json:"perm,omitempty"` // seed for permuting/duplicating the reported deps
-	Twice   bool   `json:"twice,omitempty"` // report the first dep twice
+	SubPath string   `json:"sub_path"`
+	Finder  string   `json:"finder"`
+	Deps    []Dep    `json:"deps,omitempty"`
+	Diags   []Diag   `json:"diags,omitempty"`
+	Perm    uint64   `json:"perm,omitempty"`    // seed for permuting/duplicating the reported deps
+	Twice   bool     `json:"twice,omitempty"`   // report the first dep twice
 	Hostile []string `json:"hostile,omitempty"` // peer-supplied strings the finder hands to every public address parser (C19)
 }
 
 // Pkg is a remote package the simulated fetcher can deliver.
 type Pkg struct {
-	Base   string  `json:"base"`            // address without query, e.g. git::https://example.com/r1.git
-	Query  string  `json:"query,omitempty"` // e.g. ref=main
-	Files  []PFile `json:"files"`
-	Rules  *string `json:"rules,omitempty"` // .terraformignore content
-	Commit string  `json:"commit,omitempty"`
-	BlankMeta bool `json:"blank_meta,omitempty"` // the fetcher returns a non-nil PackageMeta with all fields omitted
-	Msg    string  `json:"msg,omitempty"`
-	Mods   []Mod   `json:"mods"`
+	Base      string  `json:"base"`            // address without query, e.g. git::https://example.com/r1.git
+	Query     string  `json:"query,omitempty"` // e.g. ref=main
+	Files     []PFile `json:"files"`
+	Rules     *string `json:"rules,omitempty"` // .terraformignore content
+	Commit    string  `json:"commit,omitempty"`
+	BlankMeta bool    `json:"blank_meta,omitempty"` // the fetcher returns a non-nil PackageMeta with all fields omitted
+	Msg       string  `json:"msg,omitempty"`
+	Mods      []Mod   `json:"mods"`
 }
 
 // Addr is the package address text.
@@ -75,8 +75,8 @@ func (p *Pkg) Source(sub string) string {
 }
 
 type RegVer struct {
-	V      string `json:"v"`
-	Source string `json:"source"` // remote source address text (may carry a sub-path)
+	V         string `json:"v"`
+	Source    string `json:"source"` // remote source address text (may carry a sub-path)
 	DepReason string `json:"dep_reason,omitempty"`
 	DepLink   string `json:"dep_link,omitempty"`
 }
@@ -105,34 +105,34 @@ type PeerFault struct {
 // Variant is one execution of the same world and Add set (C13): a permutation
 // of the Add calls, a task assignment and a schedule.
 type Variant struct {
-	Order     []int  `json:"order"`            // permutation of Adds indices
-	Tasks     []int  `json:"tasks"`            // task of each Add (by position in Order)
-	PermSalt  uint64 `json:"perm_salt"`        // changes the order in which finders report deps
+	Order     []int  `json:"order"`     // permutation of Adds indices
+	Tasks     []int  `json:"tasks"`     // task of each Add (by position in Order)
+	PermSalt  uint64 `json:"perm_salt"` // changes the order in which finders report deps
 	SchedSeed uint64 `json:"sched_seed"`
 	Shape     string `json:"shape,omitempty"`
 }
 
 type Scenario struct {
-	World    string      `json:"world"`
-	Profile  string      `json:"profile"`
-	Seed     uint64      `json:"seed"`
-	UID      int         `json:"uid"`
-	Umask    int         `json:"umask"`
-	Pkgs     []Pkg       `json:"pkgs"`
-	Regs     []RegPkg    `json:"regs,omitempty"`
-	Adds     []Add       `json:"adds"`
-	Variants []Variant   `json:"variants"`
-	Faults   []PeerFault `json:"faults,omitempty"`
-	Post     []string    `json:"post,omitempty"` // reopen ship corrupt crash-probe
-	PipeCap  int         `json:"pipe_cap,omitempty"`
-	PipeBreak int        `json:"pipe_break,omitempty"` // ship: the pipe breaks after this many bytes (0: never)
-	Corrupt  []Corruption `json:"corrupt,omitempty"`
-	OtherPack bool       `json:"other_pack,omitempty"` // a further task packs another tree with its own rule file (slug.Pack) while the build runs: both consume the same ignore-rule machinery
-	CloseTask bool       `json:"close_task,omitempty"` // Close is issued by task 0 after its Adds instead of after all tasks
-	Tapes    [][]int     `json:"tapes,omitempty"`     // pinned schedule tapes, one per scheduler in creation order (variants, then ship)
-	HaveTape bool        `json:"have_tape,omitempty"`
-	Manifest *string     `json:"manifest,omitempty"` // synthetic manifest to open (C18/C19), no build
-	Strings  []string    `json:"strings,omitempty"`  // hostile address strings fed to the parsers through a finder (C19)
+	World     string       `json:"world"`
+	Profile   string       `json:"profile"`
+	Seed      uint64       `json:"seed"`
+	UID       int          `json:"uid"`
+	Umask     int          `json:"umask"`
+	Pkgs      []Pkg        `json:"pkgs"`
+	Regs      []RegPkg     `json:"regs,omitempty"`
+	Adds      []Add        `json:"adds"`
+	Variants  []Variant    `json:"variants"`
+	Faults    []PeerFault  `json:"faults,omitempty"`
+	Post      []string     `json:"post,omitempty"` // reopen ship corrupt crash-probe
+	PipeCap   int          `json:"pipe_cap,omitempty"`
+	PipeBreak int          `json:"pipe_break,omitempty"` // ship: the pipe breaks after this many bytes (0: never)
+	Corrupt   []Corruption `json:"corrupt,omitempty"`
+	OtherPack bool         `json:"other_pack,omitempty"` // a further task packs another tree with its own rule file (slug.Pack) while the build runs: both consume the same ignore-rule machinery
+	CloseTask bool         `json:"close_task,omitempty"` // Close is issued by task 0 after its Adds instead of after all tasks
+	Tapes     [][]int      `json:"tapes,omitempty"`      // pinned schedule tapes, one per scheduler in creation order (variants, then ship)
+	HaveTape  bool         `json:"have_tape,omitempty"`
+	Manifest  *string      `json:"manifest,omitempty"` // synthetic manifest to open (C18/C19), no build
+	Strings   []string     `json:"strings,omitempty"`  // hostile address strings fed to the parsers through a finder (C19)
 }
 
 // Corruption is a stored-state fault applied to a copy of the finished
